@@ -50,6 +50,8 @@ Bases == { [name |-> "mid",  ipid_base |-> 41821, echo_base |-> 40000, seq_base 
            [name |-> "wrap", ipid_base |-> 65533, echo_base |-> 65533, seq_base |-> <<65535, 65534>>, isn |-> <<65535, 65533>>],
            [name |-> "zero", ipid_base |-> 65535, echo_base |-> 65535, seq_base |-> <<0, 0>>, isn |-> <<0, 0>>],
            \* isn + 4 = 2^32 - 1 and isn + 5 = 0: SACK blocks of one duplicate ACK on opposite sides of the sequence wrap
+           \* the largest sequence number: the acknowledgement of the probe is 0
+           [name |-> "seqmax", ipid_base |-> 1000, echo_base |-> 1000, seq_base |-> <<65535, 65535>>, isn |-> <<65535, 65535>>],
            [name |-> "wrap5", ipid_base |-> 65531, echo_base |-> 65531, seq_base |-> <<65535, 65531>>, isn |-> <<65535, 65531>>] }
 BaseMid == CHOOSE b \in Bases : b.name = "mid"
 
